@@ -76,6 +76,20 @@ def _evaluate(case: Dict[str, Any]) -> Dict[str, Any]:
             out["insel"] = sorted(insel)
             if case.get("order", True):
                 out["orderx"] = _order(lambda: exr(), keymap)
+    if case.get("compose"):
+        # a DAG derived with compose() is a DAG like any other: its table follows the same definition on its own graph
+        import networkx as nx
+
+        cm = case["compose"]
+        try:
+            cd = b.dag.compose("composed", [ids[s] for s in cm["inputs"]], [ids[s] for s in cm["outputs"]])
+        except ValueError as e:
+            out["compose_error"] = str(e)[:120]
+        else:
+            g = cd.graph_ids
+            out["tc"] = {n: g.compound_priority[n] for n in sorted(g.nodes)}
+            out["tc_def"] = {n: cd.exec_nodes[n].priority + sum(cd.exec_nodes[d].priority for d in nx.descendants(g, n))
+                             for n in sorted(g.nodes)}
     if case.get("final_ops"):
         # operations that derive graphs from the DAG (setup runs, executors) must leave the DAG's own table alone
         import asyncio
